@@ -114,7 +114,7 @@ class Model : public IMachine {
     int run_actions(int mi, const DRow& r, const EvInfo& ei, const MEv& e);
     void exit_state(int mi, int s, const MEv& e, int trigger);
     void enter_target(int mi, const DRow& r, const MEv& e);
-    void enter_simple(int mi, int s, const MEv& e, int trigger);
+    void enter_simple(int mi, int s, const MEv& e, int trigger, bool by_row = false);
     void exit_machine(int mi, const MEv& e, int trigger, int fsm_mi);
     bool hist_applies(int mi, int static_ev_type) const;
     void set_active_by_history(int mi, int static_ev_type, bool wrapped);
